@@ -182,24 +182,26 @@ func meet(states []*state) *state {
 }
 
 type pkgAn struct {
-	busTypes   map[string]*types.Struct // event struct types sent on a bus, by name
-	freshMemo  map[*ast.FuncDecl]map[types.Object]bool
-	files      []*ast.File
-	path       string // import path
-	short      string
-	rel        string // directory relative to the repo root
-	fset       *token.FileSet
-	info       *types.Info
-	fields     map[*types.Var]*fieldInfo
-	innerMutex map[*fieldInfo]*fieldInfo
-	tracked    map[string]bool // pkg.Type
-	decls      map[*types.Func]*ast.FuncDecl
-	sends      map[string]int
-	closes     map[string]int
-	rows       map[string]*Row
-	rowOrder   []string
-	memo       map[string]bool
-	called     map[*types.Func]bool
+	busTypes    map[string]*types.Struct // event struct types sent on a bus, by name
+	freshMemo   map[*ast.FuncDecl]map[types.Object]bool
+	aliasMemo   map[*ast.FuncDecl]map[string]string
+	freshLocals map[*ast.FuncDecl]*freshInfo
+	files       []*ast.File
+	path        string // import path
+	short       string
+	rel         string // directory relative to the repo root
+	fset        *token.FileSet
+	info        *types.Info
+	fields      map[*types.Var]*fieldInfo
+	innerMutex  map[*fieldInfo]*fieldInfo
+	tracked     map[string]bool // pkg.Type
+	decls       map[*types.Func]*ast.FuncDecl
+	sends       map[string]int
+	closes      map[string]int
+	rows        map[string]*Row
+	rowOrder    []string
+	memo        map[string]bool
+	called      map[*types.Func]bool
 	// summaries[F][paramIndex] = list of lock sets (param name -> mode) under which F calls that parameter
 	summaries map[*types.Func]map[int][]map[string]string
 	newSumm   map[*types.Func]map[int][]map[string]string
@@ -569,7 +571,7 @@ func analysePackage(root, dir string) (*pkgAn, error) {
 		return nil, nil
 	}
 	rel, _ := filepath.Rel(root, dir)
-	pa := &pkgAn{files: files, path: modulePath(root) + "/" + filepath.ToSlash(rel), short: pkg.Name(), rel: rel, fset: fset, info: info, fields: map[*types.Var]*fieldInfo{}, innerMutex: map[*fieldInfo]*fieldInfo{}, busTypes: map[string]*types.Struct{}, freshMemo: map[*ast.FuncDecl]map[types.Object]bool{},
+	pa := &pkgAn{files: files, path: modulePath(root) + "/" + filepath.ToSlash(rel), short: pkg.Name(), rel: rel, fset: fset, info: info, fields: map[*types.Var]*fieldInfo{}, innerMutex: map[*fieldInfo]*fieldInfo{}, busTypes: map[string]*types.Struct{}, freshMemo: map[*ast.FuncDecl]map[types.Object]bool{}, aliasMemo: map[*ast.FuncDecl]map[string]string{}, freshLocals: map[*ast.FuncDecl]*freshInfo{},
 		tracked: map[string]bool{}, decls: map[*types.Func]*ast.FuncDecl{}, sends: map[string]int{}, closes: map[string]int{},
 		rows: map[string]*Row{}, memo: map[string]bool{}, called: map[*types.Func]bool{},
 		summaries: map[*types.Func]map[int][]map[string]string{}, newSumm: map[*types.Func]map[int][]map[string]string{}}
@@ -613,6 +615,22 @@ func analysePackage(root, dir string) (*pkgAn, error) {
 			}
 		}
 		return false
+	}
+	// "objects": struct types with at least one pointer-receiver method are shared by pointer between
+	// the goroutines that call those methods (servers, groups, devices, wrappers), mutex or not
+	ptrRecv := map[string]bool{}
+	for _, f := range files {
+		for _, d := range f.Decls {
+			fd, ok := d.(*ast.FuncDecl)
+			if !ok || fd.Recv == nil || len(fd.Recv.List) != 1 {
+				continue
+			}
+			if st, ok := fd.Recv.List[0].Type.(*ast.StarExpr); ok {
+				if id, ok := st.X.(*ast.Ident); ok {
+					ptrRecv[id.Name] = true
+				}
+			}
+		}
 	}
 	trackedNames := map[string]bool{}
 	for _, s := range structs {
@@ -701,6 +719,12 @@ func analysePackage(root, dir string) (*pkgAn, error) {
 			trackedNames[n] = true
 		} else {
 			delete(busShared, n)
+		}
+	}
+	// the remaining objects (event types keep their bus-shared treatment)
+	for _, s := range structs {
+		if ptrRecv[s.name] && !trackedNames[s.name] {
+			trackedNames[s.name] = true
 		}
 	}
 	for _, s := range structs {
@@ -858,11 +882,26 @@ func (pa *pkgAn) rootPhase(fn *types.Func) string {
 	return "live"
 }
 
+// curAlias: local aliases of the function being walked (`cc := c`: cc designates the object c does);
+// set by analyse, see aliasesOf.  Locks and accesses are keyed by the canonical name.
+var curAlias map[string]string
+
+func canonName(n string) string {
+	for i := 0; i < 8; i++ {
+		m, ok := curAlias[n]
+		if !ok {
+			return n
+		}
+		n = m
+	}
+	return n
+}
+
 func rootIdent(e ast.Expr) string {
 	for {
 		switch x := e.(type) {
 		case *ast.Ident:
-			return x.Name
+			return canonName(x.Name)
 		case *ast.SelectorExpr:
 			e = x.X
 		case *ast.StarExpr:
@@ -916,6 +955,9 @@ func (pa *pkgAn) record(c *fctx, st *state, fi *fieldInfo, kind string, at ast.E
 	r := &Row{Field: fi.full(), Kind: kind, Fn: c.fn, Phase: c.phase, Role: c.role, Pos: []string{pa.pos(at)}}
 	if fi.busShared && pa.privateEvent(c, at) {
 		r.Phase = "init" // a private copy (struct value) or an event this function has just created
+	}
+	if !fi.busShared && r.Phase == "live" && pa.freshLocalAccess(c, at) {
+		r.Phase = "init" // an object this function has created and not yet handed to another goroutine (fresh.go)
 	}
 	got := map[string]string{}
 	for k, m := range st.held {
@@ -1175,6 +1217,9 @@ func (pa *pkgAn) analyse(fn *types.Func, entry map[string]string, role int, phas
 		return
 	}
 	pa.memo[key] = true
+	prevAlias := curAlias
+	curAlias = pa.aliasesOf(fd)
+	defer func() { curAlias = prevAlias }()
 	st := newState()
 	recv := ""
 	if fd.Recv != nil && len(fd.Recv.List) == 1 && len(fd.Recv.List[0].Names) == 1 {
@@ -1205,6 +1250,89 @@ func (pa *pkgAn) analyse(fn *types.Func, entry map[string]string, role int, phas
 			pa.invoke(b.ctx, b.def, b, "/"+b.name)
 		}
 	}
+}
+
+// aliasesOf: the single-assignment local aliases of a function, `x := y` where x is defined exactly
+// once and never assigned again, y is the receiver, a parameter or a local that is itself never
+// reassigned, and neither name is shadowed inside the function.  x then designates the same object
+// as y for the whole function, so `cc := c; cc.mu.Lock(); c.byId[k] = v` is an access under c's lock.
+func (pa *pkgAn) aliasesOf(fd *ast.FuncDecl) map[string]string {
+	if m, ok := pa.aliasMemo[fd]; ok {
+		return m
+	}
+	res := map[string]string{}
+	pa.aliasMemo[fd] = res
+	if fd.Body == nil {
+		return res
+	}
+	writes := map[types.Object]int{}
+	objsOfName := map[string]map[types.Object]bool{}
+	noteName := func(id *ast.Ident) {
+		if o := pa.objOf(id); o != nil {
+			if objsOfName[id.Name] == nil {
+				objsOfName[id.Name] = map[types.Object]bool{}
+			}
+			objsOfName[id.Name][o] = true
+		}
+	}
+	noteWrite := func(e ast.Expr) {
+		if id, ok := e.(*ast.Ident); ok {
+			if o := pa.objOf(id); o != nil {
+				writes[o]++
+			}
+		}
+	}
+	type cand struct{ x, y *ast.Ident }
+	var cands []cand
+	ast.Inspect(fd, func(n ast.Node) bool {
+		switch x := n.(type) {
+		case *ast.Ident:
+			noteName(x)
+		case *ast.AssignStmt:
+			for _, l := range x.Lhs {
+				noteWrite(l)
+			}
+			if x.Tok == token.DEFINE && len(x.Lhs) == 1 && len(x.Rhs) == 1 {
+				lx, ok1 := x.Lhs[0].(*ast.Ident)
+				ry, ok2 := x.Rhs[0].(*ast.Ident)
+				if ok1 && ok2 && lx.Name != "_" {
+					cands = append(cands, cand{lx, ry})
+				}
+			}
+		case *ast.IncDecStmt:
+			noteWrite(x.X)
+		case *ast.RangeStmt:
+			if x.Key != nil {
+				noteWrite(x.Key)
+			}
+			if x.Value != nil {
+				noteWrite(x.Value)
+			}
+		case *ast.UnaryExpr:
+			if x.Op == token.AND {
+				noteWrite(x.X) // address taken: may be written through the pointer
+			}
+		}
+		return true
+	})
+	for _, c := range cands {
+		ox, oy := pa.objOf(c.x), pa.objOf(c.y)
+		if ox == nil || oy == nil {
+			continue
+		}
+		vy, ok := oy.(*types.Var)
+		if !ok || vy.Pkg() == nil || vy.Parent() == vy.Pkg().Scope() {
+			continue
+		}
+		if _, isPtr := vy.Type().(*types.Pointer); !isPtr {
+			continue // a struct value is a copy, not an alias
+		}
+		if writes[ox] != 1 || writes[oy] > 1 || len(objsOfName[c.x.Name]) != 1 || len(objsOfName[c.y.Name]) != 1 {
+			continue
+		}
+		res[c.x.Name] = c.y.Name
+	}
+	return res
 }
 
 // walkBody walks the statements of a function body; plain top-level statements are candidates for
@@ -1722,11 +1850,35 @@ func (pa *pkgAn) walkExpr(c *fctx, st *state, e ast.Expr) {
 	case *ast.CompositeLit:
 		pa.walkComposite(c, st, x)
 	case *ast.FuncLit:
+		if pa.isOptionLit(x) {
+			// a functional option `func(o *T) { o.f = v }`: applied by T's constructor before the object is published
+			oc := *c
+			oc.phase = "init"
+			pa.invoke(&oc, st, &binding{lit: x}, "/option")
+			return
+		}
 		// assumed to be invoked synchronously by whoever receives it: inherits the current locks
 		pa.invoke(c, st, &binding{lit: x}, "/func")
 	case *ast.CallExpr:
 		pa.walkCall(c, st, x)
 	}
+}
+
+// isOptionLit: `func(o *T) {…}` with T a tracked struct of this package, no results
+func (pa *pkgAn) isOptionLit(x *ast.FuncLit) bool {
+	ft := x.Type
+	if ft.Results != nil && len(ft.Results.List) > 0 {
+		return false
+	}
+	if ft.Params == nil || len(ft.Params.List) != 1 || len(ft.Params.List[0].Names) != 1 {
+		return false
+	}
+	st, ok := ft.Params.List[0].Type.(*ast.StarExpr)
+	if !ok {
+		return false
+	}
+	id, ok := st.X.(*ast.Ident)
+	return ok && pa.tracked[pa.short+"."+id.Name]
 }
 
 func (pa *pkgAn) walkComposite(c *fctx, st *state, x *ast.CompositeLit) {
